@@ -16,6 +16,8 @@ import DarsiaProofs.Csc
 import DarsiaProofs.CscGeneral
 import DarsiaProofs.SaddleBridge
 import DarsiaProofs.SolverCache
+import DarsiaProofs.Options
+import DarsiaGen.OptionsGen
 import DarsiaProps.C06
 import DarsiaProps.C07
 import DarsiaProofs.FV
@@ -360,6 +362,28 @@ theorem cache_refines_WObj {f : SolverCache.Formulation} {b : SolverCache.Backen
     ∃ st' o, SolverCache.linearSolve f b st m reuse = .ok (st', o) ∧
       (o.used.1, o.used.2, o.setup) = (w.linearSolve m reuse).2 ∧ SolverCache.Rel st' (w.linearSolve m reuse).1 :=
   SolverCache.refines_WObj h hlive st w hr m reuse
+
+/-! ### option resolution: no state shared between solver objects
+
+`DarsiaModel.Options`: resolved options = defaults ⊕ user (`dict.update`); `Gen.amgBinding` is extracted from the AST of
+`setup_amg_options` on every check (dictionary literal / copy = `fresh`, module-level object bound by reference = `shared`). -/
+
+/-- generated obligation: the AMG defaults are built afresh in every call -/
+theorem amg_defaults_built_afresh : Gen.amgBinding = .fresh := by decide
+
+/-- hence what a solver object resolves is a function of (defaults, its own user options) only: no object used earlier in
+the process — whatever options it was given — changes it -/
+theorem options_do_not_leak {κ ν : Type} [DecidableEq κ] (w : Options.World κ ν) (history : List (Options.Opts κ ν))
+    (user : Options.Opts κ ν) :
+    Options.resolveAfter Gen.amgBinding w history user = Options.update w.defaults user := by
+  rw [amg_defaults_built_afresh]
+  exact Options.fresh_no_leak w history user
+
+/-- witness for the other shape: with a module-level default bound by reference, one object's user option (`max_coarse := 3`)
+is what a later default object resolves -/
+theorem shared_defaults_leak :
+    Options.resolveAfter (κ := Nat) (ν := Nat) .shared ⟨[(0, 100)]⟩ [[(0, 3)]] [] = [(0, 3)] ∧
+    Options.resolveAfter (κ := Nat) (ν := Nat) .fresh ⟨[(0, 100)]⟩ [[(0, 3)]] [] = [(0, 100)] := by decide
 
 /-! ### CSC surgery (`setup_eliminate_lagrange_multiplier`, `eliminate_lagrange_multiplier`)
 
